@@ -1,527 +1,3 @@
-/- GENERATED by harness/extract_draw.py from /repo/src — do not edit. -/
-import CC.Model.DrawTypes
-namespace CC.Draw.Gen
-open CC.Draw
-
-def translatorMap : List (String × String) :=
-  [("Resistor", "resistor_translator"),
-   ("Impedance", "impedance_translator"),
-   ("Conductance", "conductance_translator"),
-   ("VoltageSource", "dc_voltage_source_translator"),
-   ("ComplexVoltageSource", "complex_voltage_source_translator"),
-   ("CurrentSource", "dc_current_source_translator"),
-   ("ComplexCurrentSource", "complex_current_source_translator"),
-   ("ACVoltageSource", "ac_voltage_source_translator"),
-   ("ACCurrentSource", "ac_current_source_translator"),
-   ("RectVoltageSource", "rect_voltage_source_translator"),
-   ("RectCurrentSource", "rect_current_source_translator"),
-   ("TriangleVoltageSource", "tri_voltage_source_translator"),
-   ("TriangleCurrentSource", "tri_current_source_translator"),
-   ("SawtoothVoltageSource", "saw_voltage_source_translator"),
-   ("SawtoothCurrentSource", "saw_current_source_translator"),
-   ("Capacitor", "capacitor_translator"),
-   ("Inductance", "inductance_translator"),
-   ("Lamp", "lamp_translator"),
-   ("Ground", "ground_translator"),
-   ("Line", "none_translator"),
-   ("LabeledLine", "short_circuit_translator"),
-   ("Node", "none_translator"),
-   ("LabelNode", "none_translator"),
-   ("RealCurrentSource", "linear_current_source_translator"),
-   ("RealVoltageSource", "linear_voltage_source_translator"),
-   ("Switch", "switch_translator"),
-   ("VoltageLabel", "none_translator"),
-   ("CurrentLabel", "none_translator"),
-   ("PowerLabel", "none_translator"),
-   ("Element", "none_translator")]
-
-def translators : List (String × List TrCase) :=
-  [("resistor_translator",
-    [{ guard := none, ctor := some "resistor", nodes := .pair,
-          args := [("R", (.attr "R"))] }]),
-   ("impedance_translator",
-    [{ guard := none, ctor := some "impedance", nodes := .pair,
-          args := [("Z", (.attr "Z"))] }]),
-   ("conductance_translator",
-    [{ guard := none, ctor := some "conductance", nodes := .pair,
-          args := [("G", (.attr "G"))] }]),
-   ("dc_voltage_source_translator",
-    [{ guard := none, ctor := some "dc_voltage_source", nodes := .pairSwapIfRev,
-          args := [("V", (.ifNotRev (.re (.attr "V")) (.neg (.re (.attr "V")))))] }]),
-   ("complex_voltage_source_translator",
-    [{ guard := none, ctor := some "complex_voltage_source", nodes := .pairSwapIfRev,
-          args := [("V", (.ifNotRev (.attr "V") (.neg (.attr "V"))))] }]),
-   ("dc_current_source_translator",
-    [{ guard := none, ctor := some "dc_current_source", nodes := .pairSwapIfRev,
-          args := [("I", (.ifNotRev (.re (.attr "I")) (.neg (.re (.attr "I")))))] }]),
-   ("complex_current_source_translator",
-    [{ guard := none, ctor := some "complex_current_source", nodes := .pairSwapIfRev,
-          args := [("I", (.ifNotRev (.attr "V") (.neg (.attr "I"))))] }]),
-   ("ac_voltage_source_translator",
-    [{ guard := none, ctor := some "ac_voltage_source", nodes := .pairSwapIfRev,
-          args := [("V", (.ifNotRev (.attr "V") (.neg (.attr "V")))), ("w", (.attr "w")), ("phi", (.degConv "phi" "deg"))] }]),
-   ("ac_current_source_translator",
-    [{ guard := none, ctor := some "ac_current_source", nodes := .pairSwapIfRev,
-          args := [("I", (.ifNotRev (.attr "I") (.neg (.attr "I")))), ("w", (.attr "w")), ("phi", (.degConv "phi" "deg"))] }]),
-   ("rect_voltage_source_translator",
-    [{ guard := none, ctor := some "periodic_voltage_source", nodes := .pairSwapIfRev,
-          args := [("wavetype", (.str "rect")), ("V", (.ifNotRev (.attr "V") (.neg (.attr "V")))), ("w", (.attr "w")), ("phi", (.degConv "phi" "deg"))] }]),
-   ("rect_current_source_translator",
-    [{ guard := none, ctor := some "periodic_current_source", nodes := .pairSwapIfRev,
-          args := [("wavetype", (.str "rect")), ("I", (.ifNotRev (.attr "I") (.neg (.attr "I")))), ("w", (.attr "w")), ("phi", (.degConv "phi" "deg"))] }]),
-   ("tri_voltage_source_translator",
-    [{ guard := none, ctor := some "periodic_voltage_source", nodes := .pairSwapIfRev,
-          args := [("wavetype", (.str "tri")), ("V", (.ifNotRev (.attr "V") (.neg (.attr "V")))), ("w", (.attr "w")), ("phi", (.degConv "phi" "deg"))] }]),
-   ("tri_current_source_translator",
-    [{ guard := none, ctor := some "periodic_current_source", nodes := .pairSwapIfRev,
-          args := [("wavetype", (.str "tri")), ("I", (.ifNotRev (.attr "I") (.neg (.attr "I")))), ("w", (.attr "w")), ("phi", (.degConv "phi" "deg"))] }]),
-   ("saw_voltage_source_translator",
-    [{ guard := none, ctor := some "periodic_voltage_source", nodes := .pairSwapIfRev,
-          args := [("wavetype", (.str "saw")), ("V", (.ifNotRev (.attr "V") (.neg (.attr "V")))), ("w", (.attr "w")), ("phi", (.degConv "phi" "deg"))] }]),
-   ("saw_current_source_translator",
-    [{ guard := none, ctor := some "periodic_current_source", nodes := .pairSwapIfRev,
-          args := [("wavetype", (.str "saw")), ("I", (.ifNotRev (.attr "I") (.neg (.attr "I")))), ("w", (.attr "w")), ("phi", (.degConv "phi" "deg"))] }]),
-   ("capacitor_translator",
-    [{ guard := none, ctor := some "capacitor", nodes := .pair,
-          args := [("C", (.attr "C"))] }]),
-   ("inductance_translator",
-    [{ guard := none, ctor := some "inductance", nodes := .pair,
-          args := [("L", (.attr "L"))] }]),
-   ("lamp_translator",
-    [{ guard := none, ctor := some "lamp", nodes := .pair,
-          args := [("P", (.attr "P_ref")), ("V_ref", (.attr "V_ref"))] }]),
-   ("ground_translator",
-    [{ guard := none, ctor := some "ground", nodes := .single,
-          args := [] }]),
-   ("none_translator",
-    [{ guard := none, ctor := none, nodes := .pair, args := [] }]),
-   ("short_circuit_translator",
-    [{ guard := none, ctor := some "short_circuit", nodes := .pairSwapIfRev,
-          args := [] }]),
-   ("linear_current_source_translator",
-    [{ guard := none, ctor := some "dc_current_source", nodes := .pairSwapIfRev,
-          args := [("I", (.ifNotRev (.re (.attr "I")) (.neg (.re (.attr "I"))))), ("G", (.attr "G"))] }]),
-   ("linear_voltage_source_translator",
-    [{ guard := none, ctor := some "dc_voltage_source", nodes := .pairSwapIfRev,
-          args := [("V", (.ifNotRev (.re (.attr "V")) (.neg (.re (.attr "V"))))), ("R", (.attr "R"))] }]),
-   ("switch_translator",
-    [{ guard := (some ("state", "OPEN")), ctor := some "resistor", nodes := .pair,
-          args := [("R", .inf)] },
-    { guard := none, ctor := some "resistor", nodes := .pair,
-          args := [("R", (.lit ((4951760157141521 : Rat) / 4951760157141521099596496896)))] }])]
-
-def wavetypes : List (String × String) :=
-  [("PeriodicFunction", ""), ("ConstantFunction", "const"), ("CosFunction", "cos"), ("SinFunction", "sin"), ("RectFunction", "rect"), ("TriFunction", "tri"), ("SawFunction", "saw")]
-
-/-- wave types accepted by `periodic_function` -/
-def knownWavetypes : List String :=
-  ["const", "cos", "sin", "rect", "tri", "saw"]
-
-def ctors : List CtorSpec :=
-  [{ name := "resistor", kind := "resistor",
-          params := [("R", none)],
-          guards := ["R"],
-          wavetypeChecks := [],
-          values := [("R", (.param "R"))] },
-   { name := "impedance", kind := "impedance",
-          params := [("Z", none)],
-          guards := [],
-          wavetypeChecks := [],
-          values := [("R", (.re "Z")), ("X", (.im "Z"))] },
-   { name := "conductance", kind := "conductance",
-          params := [("G", none)],
-          guards := ["G"],
-          wavetypeChecks := [],
-          values := [("G", (.param "G"))] },
-   { name := "dc_voltage_source", kind := "dc_voltage_source",
-          params := [("V", none), ("R", some (0 : Rat))],
-          guards := ["R"],
-          wavetypeChecks := [],
-          values := [("V", (.param "V")), ("R", (.param "R")), ("w", (.lit (0 : Rat))), ("phi", (.lit (0 : Rat)))] },
-   { name := "complex_voltage_source", kind := "complex_voltage_source",
-          params := [("V", none), ("Z", some (0 : Rat))],
-          guards := [],
-          wavetypeChecks := [],
-          values := [("V_real", (.re "V")), ("V_imag", (.im "V")), ("R", (.re "Z")), ("X", (.im "Z"))] },
-   { name := "dc_current_source", kind := "dc_current_source",
-          params := [("I", none), ("G", some (0 : Rat))],
-          guards := ["G"],
-          wavetypeChecks := [],
-          values := [("I", (.param "I")), ("G", (.param "G")), ("w", (.lit (0 : Rat))), ("phi", (.lit (0 : Rat)))] },
-   { name := "complex_current_source", kind := "complex_current_source",
-          params := [("I", none), ("Y", some (0 : Rat))],
-          guards := [],
-          wavetypeChecks := [],
-          values := [("I_real", (.re "I")), ("I_imag", (.im "I")), ("G", (.re "Y")), ("B", (.im "Y"))] },
-   { name := "ac_voltage_source", kind := "ac_voltage_source",
-          params := [("V", none), ("R", some (0 : Rat)), ("w", some (0 : Rat)), ("phi", some (0 : Rat))],
-          guards := ["R", "w"],
-          wavetypeChecks := [],
-          values := [("V", (.param "V")), ("R", (.param "R")), ("w", (.param "w")), ("phi", (.param "phi"))] },
-   { name := "ac_current_source", kind := "ac_current_source",
-          params := [("I", none), ("G", some (0 : Rat)), ("w", some (0 : Rat)), ("phi", some (0 : Rat))],
-          guards := ["G", "w"],
-          wavetypeChecks := [],
-          values := [("I", (.param "I")), ("G", (.param "G")), ("w", (.param "w")), ("phi", (.param "phi"))] },
-   { name := "periodic_voltage_source", kind := "periodic_voltage_source",
-          params := [("wavetype", none), ("V", none), ("w", none), ("phi", some (0 : Rat)), ("R", some (0 : Rat))],
-          guards := ["R", "w"],
-          wavetypeChecks := ["wavetype"],
-          values := [("wavetype", (.param "wavetype")), ("V", (.param "V")), ("w", (.param "w")), ("phi", (.param "phi")), ("R", (.param "R"))] },
-   { name := "periodic_current_source", kind := "periodic_current_source",
-          params := [("wavetype", none), ("I", none), ("w", none), ("phi", none), ("G", some (0 : Rat))],
-          guards := ["G", "w"],
-          wavetypeChecks := ["wavetype"],
-          values := [("wavetype", (.param "wavetype")), ("I", (.param "I")), ("w", (.param "w")), ("phi", (.param "phi")), ("G", (.param "G"))] },
-   { name := "capacitor", kind := "capacitor",
-          params := [("C", none)],
-          guards := ["C"],
-          wavetypeChecks := [],
-          values := [("C", (.param "C"))] },
-   { name := "inductance", kind := "inductance",
-          params := [("L", none)],
-          guards := ["L"],
-          wavetypeChecks := [],
-          values := [("L", (.param "L"))] },
-   { name := "lamp", kind := "lamp",
-          params := [("P", none), ("V_ref", none)],
-          guards := ["P", "V_ref"],
-          wavetypeChecks := [],
-          values := [("P", (.param "P")), ("V_ref", (.param "V_ref"))] },
-   { name := "ground", kind := "ground",
-          params := [],
-          guards := [],
-          wavetypeChecks := [],
-          values := [] },
-   { name := "short_circuit", kind := "short_circuit",
-          params := [],
-          guards := [],
-          wavetypeChecks := [],
-          values := [] }]
-
-def elemClasses : List ElemClass :=
-  [{ cls := "SwitchState", typ := "", named := false,
-          ancestors := [],
-          extBases := ["Enum"],
-          decorators := [],
-          params := [],
-          fields := [],
-          sinShift := none, revForward := "",
-          props := [] },
-   { cls := "Schematic", typ := "", named := false,
-          ancestors := [],
-          extBases := ["schemdraw.Drawing"],
-          decorators := [],
-          params := [("unit", false, (some (.num ⟨(7 : Rat), 0⟩)))],
-          fields := [],
-          sinShift := none, revForward := "",
-          props := [] },
-   { cls := "SimpleCircuitElement", typ := "", named := false,
-          ancestors := [],
-          extBases := ["ABC"],
-          decorators := [],
-          params := [("name", true, none), ("reverse", true, (some (.bool false)))],
-          fields := [("_name", (.param "name")), ("_reverse", (.param "reverse"))],
-          sinShift := none, revForward := "",
-          props := [("name", (.field "_name")), ("is_reverse", (.field "_reverse"))] },
-   { cls := "Element", typ := "", named := true,
-          ancestors := [],
-          extBases := ["schemdraw.elements.Element"],
-          decorators := ["simple_circuit_element"],
-          params := [],
-          fields := [],
-          sinShift := none, revForward := "",
-          props := [] },
-   { cls := "VoltageSource", typ := "voltage_source", named := true,
-          ancestors := [],
-          extBases := ["schemdraw.elements.SourceV"],
-          decorators := ["simple_circuit_element", "extension.source"],
-          params := [("name", true, none), ("V", true, none), ("reverse", true, (some (.bool false))), ("precision", true, (some (.num ⟨(3 : Rat), 0⟩)))],
-          fields := [("_V", (.negIfRev "V"))],
-          sinShift := none, revForward := "not reverse",
-          props := [("V", (.field "_V")), ("type", (.str "voltage_source"))] },
-   { cls := "ComplexVoltageSource", typ := "complex_voltage_source", named := true,
-          ancestors := [],
-          extBases := ["schemdraw.elements.SourceV"],
-          decorators := ["simple_circuit_element", "extension.source"],
-          params := [("name", true, none), ("V", true, none), ("reverse", true, (some (.bool false))), ("precision", true, (some (.num ⟨(3 : Rat), 0⟩)))],
-          fields := [("_V", (.negIfRev "V"))],
-          sinShift := none, revForward := "not reverse",
-          props := [("V", (.field "_V")), ("type", (.str "complex_voltage_source"))] },
-   { cls := "CurrentSource", typ := "current_source", named := true,
-          ancestors := [],
-          extBases := ["schemdraw.elements.SourceI"],
-          decorators := ["simple_circuit_element", "extension.source"],
-          params := [("I", true, none), ("name", true, none), ("reverse", true, (some (.bool false))), ("precision", true, (some (.num ⟨(3 : Rat), 0⟩)))],
-          fields := [("_I", (.negIfRev "I"))],
-          sinShift := none, revForward := "reverse",
-          props := [("I", (.field "_I")), ("type", (.str "current_source"))] },
-   { cls := "ComplexCurrentSource", typ := "complex_current_source", named := true,
-          ancestors := [],
-          extBases := ["schemdraw.elements.SourceI"],
-          decorators := ["simple_circuit_element", "extension.source"],
-          params := [("I", true, none), ("name", true, none), ("reverse", true, (some (.bool false))), ("precision", true, (some (.num ⟨(3 : Rat), 0⟩)))],
-          fields := [("_I", (.negIfRev "I"))],
-          sinShift := none, revForward := "reverse",
-          props := [("I", (.field "_I")), ("type", (.str "complex_current_source"))] },
-   { cls := "Resistor", typ := "resistor", named := true,
-          ancestors := [],
-          extBases := ["schemdraw.elements.Resistor"],
-          decorators := ["simple_circuit_element", "extension.resistor"],
-          params := [("R", true, none), ("name", true, none), ("show_name", true, (some (.bool true))), ("show_value", true, (some (.bool true))), ("reverse", true, (some (.bool false)))],
-          fields := [("_R", (.param "R"))],
-          sinShift := none, revForward := "reverse",
-          props := [("R", (.field "_R")), ("G", (.inv "_R")), ("type", (.str "resistor"))] },
-   { cls := "Conductance", typ := "conductance", named := true,
-          ancestors := [],
-          extBases := ["schemdraw.elements.Resistor"],
-          decorators := ["simple_circuit_element", "extension.resistor"],
-          params := [("G", true, none), ("name", true, none), ("show_name", true, (some (.bool true))), ("show_value", true, (some (.bool true))), ("reverse", true, (some (.bool false)))],
-          fields := [("_G", (.param "G"))],
-          sinShift := none, revForward := "reverse",
-          props := [("R", (.inv "_G")), ("G", (.field "_G")), ("type", (.str "conductance"))] },
-   { cls := "Impedance", typ := "impedance", named := true,
-          ancestors := [],
-          extBases := ["schemdraw.elements.Resistor"],
-          decorators := ["simple_circuit_element", "extension.resistor"],
-          params := [("Z", true, none), ("name", true, none), ("show_name", true, (some (.bool true))), ("show_value", true, (some (.bool true))), ("precision", true, (some (.num ⟨(3 : Rat), 0⟩))), ("reverse", true, (some (.bool false)))],
-          fields := [("_Z", (.param "Z"))],
-          sinShift := none, revForward := "reverse",
-          props := [("Z", (.field "_Z")), ("Y", (.inv "_Z")), ("type", (.str "impedance"))] },
-   { cls := "Admittance", typ := "admittance", named := true,
-          ancestors := [],
-          extBases := ["schemdraw.elements.Resistor"],
-          decorators := ["simple_circuit_element", "extension.resistor"],
-          params := [("Y", true, none), ("name", true, none), ("show_name", true, (some (.bool true))), ("show_value", true, (some (.bool true))), ("precision", true, (some (.num ⟨(3 : Rat), 0⟩))), ("reverse", true, (some (.bool false)))],
-          fields := [("_Y", (.param "Y"))],
-          sinShift := none, revForward := "reverse",
-          props := [("Z", (.inv "_Y")), ("Y", (.inv "_Y")), ("type", (.str "admittance"))] },
-   { cls := "ACVoltageSource", typ := "ac_voltage_source", named := true,
-          ancestors := [],
-          extBases := ["schemdraw.elements.SourceSin"],
-          decorators := ["simple_circuit_element", "extension.source"],
-          params := [("V", false, none), ("w", false, none), ("phi", false, none), ("name", false, none), ("show_name", true, (some (.bool true))), ("show_value", true, (some (.bool true))), ("sin", true, (some (.bool false))), ("deg", true, (some (.bool false))), ("reverse", true, (some (.bool false))), ("precision", true, (some (.num ⟨(3 : Rat), 0⟩)))],
-          fields := [("_V", (.negIfRev "V")), ("_w", (.param "w")), ("_phi", (.param "phi")), ("_deg", (.param "deg")), ("_sin", (.param "sin"))],
-          sinShift := (some ("_sin", "_phi")), revForward := "not reverse",
-          props := [("w", (.field "_w")), ("phi", (.field "_phi")), ("sin", (.field "_sin")), ("deg", (.field "_deg")), ("V", (.field "_V")), ("type", (.str "ac_voltage_source"))] },
-   { cls := "ACCurrentSource", typ := "ac_current_source", named := true,
-          ancestors := [],
-          extBases := ["schemdraw.elements.SourceSin"],
-          decorators := ["simple_circuit_element", "extension.source"],
-          params := [("I", true, none), ("w", true, none), ("phi", true, none), ("name", true, none), ("show_name", true, (some (.bool true))), ("show_value", true, (some (.bool true))), ("sin", true, (some (.bool false))), ("deg", true, (some (.bool false))), ("reverse", true, (some (.bool false))), ("precision", true, (some (.num ⟨(3 : Rat), 0⟩)))],
-          fields := [("_I", (.negIfRev "I")), ("_w", (.param "w")), ("_phi", (.param "phi")), ("_deg", (.param "deg")), ("_sin", (.param "sin"))],
-          sinShift := (some ("_sin", "_phi")), revForward := "reverse",
-          props := [("w", (.field "_w")), ("phi", (.field "_phi")), ("sin", (.field "_sin")), ("deg", (.field "_deg")), ("I", (.field "_I")), ("type", (.str "ac_current_source"))] },
-   { cls := "RectVoltageSource", typ := "rect_voltage_source", named := true,
-          ancestors := [],
-          extBases := ["schemdraw.elements.SourceSquare"],
-          decorators := ["extension.source", "simple_circuit_element"],
-          params := [("V", false, none), ("w", false, none), ("phi", false, none), ("name", false, none), ("sin", true, (some (.bool false))), ("deg", true, (some (.bool false))), ("reverse", true, (some (.bool false)))],
-          fields := [("_V", (.negIfRev "V")), ("_w", (.param "w")), ("_phi", (.param "phi")), ("_deg", (.param "deg")), ("_sin", (.param "sin"))],
-          sinShift := none, revForward := "not reverse",
-          props := [("w", (.field "_w")), ("phi", (.field "_phi")), ("sin", (.field "_sin")), ("deg", (.field "_deg")), ("V", (.field "_V")), ("type", (.str "rect_voltage_source"))] },
-   { cls := "TriangleVoltageSource", typ := "tri_voltage_source", named := true,
-          ancestors := [],
-          extBases := ["schemdraw.elements.SourceTriangle"],
-          decorators := ["simple_circuit_element", "extension.source"],
-          params := [("V", false, none), ("w", false, none), ("phi", false, none), ("name", false, none), ("sin", true, (some (.bool false))), ("deg", true, (some (.bool false))), ("reverse", true, (some (.bool false)))],
-          fields := [("_V", (.negIfRev "V")), ("_w", (.param "w")), ("_phi", (.param "phi")), ("_deg", (.param "deg")), ("_sin", (.param "sin"))],
-          sinShift := none, revForward := "not reverse",
-          props := [("w", (.field "_w")), ("phi", (.field "_phi")), ("sin", (.field "_sin")), ("deg", (.field "_deg")), ("V", (.field "_V")), ("type", (.str "tri_voltage_source"))] },
-   { cls := "SawtoothVoltageSource", typ := "saw_voltage_source", named := true,
-          ancestors := [],
-          extBases := ["schemdraw.elements.Source"],
-          decorators := ["simple_circuit_element", "extension.source"],
-          params := [("V", false, none), ("w", false, none), ("phi", false, none), ("name", false, none), ("sin", true, (some (.bool false))), ("deg", true, (some (.bool false))), ("reverse", true, (some (.bool false)))],
-          fields := [("_V", (.negIfRev "V")), ("_w", (.param "w")), ("_phi", (.param "phi")), ("_deg", (.param "deg")), ("_sin", (.param "sin"))],
-          sinShift := none, revForward := "not reverse",
-          props := [("w", (.field "_w")), ("phi", (.field "_phi")), ("sin", (.field "_sin")), ("deg", (.field "_deg")), ("V", (.field "_V")), ("type", (.str "saw_voltage_source"))] },
-   { cls := "RectCurrentSource", typ := "rect_current_source", named := true,
-          ancestors := [],
-          extBases := ["schemdraw.elements.SourceSquare"],
-          decorators := ["simple_circuit_element", "extension.source"],
-          params := [("I", false, none), ("w", false, none), ("phi", false, none), ("name", false, none), ("sin", true, (some (.bool false))), ("deg", true, (some (.bool false))), ("reverse", true, (some (.bool false)))],
-          fields := [("_I", (.negIfRev "I")), ("_w", (.param "w")), ("_phi", (.param "phi")), ("_deg", (.param "deg")), ("_sin", (.param "sin"))],
-          sinShift := none, revForward := "reverse",
-          props := [("w", (.field "_w")), ("phi", (.field "_phi")), ("sin", (.field "_sin")), ("deg", (.field "_deg")), ("I", (.field "_I")), ("type", (.str "rect_current_source"))] },
-   { cls := "TriangleCurrentSource", typ := "tri_current_source", named := true,
-          ancestors := [],
-          extBases := ["schemdraw.elements.SourceTriangle"],
-          decorators := ["simple_circuit_element", "extension.source"],
-          params := [("I", false, none), ("w", false, none), ("phi", false, none), ("name", false, none), ("sin", true, (some (.bool false))), ("deg", true, (some (.bool false))), ("reverse", true, (some (.bool false)))],
-          fields := [("_I", (.negIfRev "I")), ("_w", (.param "w")), ("_phi", (.param "phi")), ("_deg", (.param "deg")), ("_sin", (.param "sin"))],
-          sinShift := none, revForward := "reverse",
-          props := [("w", (.field "_w")), ("phi", (.field "_phi")), ("sin", (.field "_sin")), ("deg", (.field "_deg")), ("I", (.field "_I")), ("type", (.str "tri_current_source"))] },
-   { cls := "SawtoothCurrentSource", typ := "saw_current_source", named := true,
-          ancestors := [],
-          extBases := ["schemdraw.elements.Source"],
-          decorators := ["simple_circuit_element", "extension.source"],
-          params := [("I", false, none), ("w", false, none), ("phi", false, none), ("name", false, none), ("sin", true, (some (.bool false))), ("deg", true, (some (.bool false))), ("reverse", true, (some (.bool false)))],
-          fields := [("_I", (.negIfRev "I")), ("_w", (.param "w")), ("_phi", (.param "phi")), ("_deg", (.param "deg")), ("_sin", (.param "sin"))],
-          sinShift := none, revForward := "reverse",
-          props := [("w", (.field "_w")), ("phi", (.field "_phi")), ("sin", (.field "_sin")), ("deg", (.field "_deg")), ("I", (.field "_I")), ("type", (.str "saw_current_source"))] },
-   { cls := "Capacitor", typ := "capacitor", named := true,
-          ancestors := [],
-          extBases := ["schemdraw.elements.Capacitor"],
-          decorators := ["simple_circuit_element", "extension.capacitor"],
-          params := [("C", false, none), ("name", false, none), ("show_name", true, (some (.bool true))), ("show_value", true, (some (.bool true))), ("reverse", true, (some (.bool false)))],
-          fields := [("_C", (.param "C"))],
-          sinShift := none, revForward := "reverse",
-          props := [("C", (.field "_C")), ("type", (.str "capacitor"))] },
-   { cls := "Inductance", typ := "inductance", named := true,
-          ancestors := [],
-          extBases := ["schemdraw.elements.Inductor"],
-          decorators := ["simple_circuit_element", "extension.inductor"],
-          params := [("L", false, none), ("name", false, none), ("show_name", true, (some (.bool true))), ("show_value", true, (some (.bool true))), ("label_offset", true, (some (.num ⟨((3602879701896397 : Rat) / 18014398509481984), 0⟩))), ("reverse", true, (some (.bool false)))],
-          fields := [("_L", (.param "L"))],
-          sinShift := none, revForward := "reverse",
-          props := [("L", (.field "_L")), ("type", (.str "inductance"))] },
-   { cls := "RealCurrentSource", typ := "real_current_source", named := true,
-          ancestors := [],
-          extBases := ["schemdraw.elements.compound.ElementCompound"],
-          decorators := ["extension.linear_current_source", "simple_circuit_element"],
-          params := [("name", false, none), ("I", false, none), ("R", false, none)],
-          fields := [("_I", (.param "I")), ("_R", (.param "R")), ("_name", (.param "name"))],
-          sinShift := none, revForward := "",
-          props := [("I", (.field "_I")), ("R", (.field "_R")), ("G", (.inv "_R")), ("type", (.str "real_current_source"))] },
-   { cls := "RealVoltageSource", typ := "real_voltage_source", named := true,
-          ancestors := [],
-          extBases := ["schemdraw.elements.compound.ElementCompound"],
-          decorators := ["extension.linear_voltage_source", "simple_circuit_element"],
-          params := [("name", false, none), ("V", false, none), ("R", false, none)],
-          fields := [("_V", (.param "V")), ("_R", (.param "R")), ("_name", (.param "name"))],
-          sinShift := none, revForward := "",
-          props := [("V", (.field "_V")), ("R", (.field "_R")), ("G", (.inv "_R")), ("type", (.str "real_voltage_source"))] },
-   { cls := "Line", typ := "line", named := true,
-          ancestors := [],
-          extBases := ["schemdraw.elements.lines.Line"],
-          decorators := ["simple_circuit_element"],
-          params := [],
-          fields := [],
-          sinShift := none, revForward := "",
-          props := [("name", (.str "")), ("type", (.str "line"))] },
-   { cls := "Lamp", typ := "", named := true,
-          ancestors := [],
-          extBases := ["schemdraw.elements.Lamp2"],
-          decorators := ["simple_circuit_element", "extension.lamp"],
-          params := [("V_ref", false, none), ("P_ref", false, none), ("name", false, none), ("show_name", true, (some (.bool true))), ("show_value", true, (some (.bool true))), ("reverse", true, (some (.bool false))), ("precision", true, (some (.num ⟨(3 : Rat), 0⟩)))],
-          fields := [("_V_ref", (.param "V_ref")), ("_P_ref", (.param "P_ref"))],
-          sinShift := none, revForward := "reverse",
-          props := [("V_ref", (.field "_V_ref")), ("P_ref", (.field "_P_ref")), ("R", (.other "self._V_ref ** 2 / self._P_ref"))] },
-   { cls := "LabeledLine", typ := "labeled_line", named := true,
-          ancestors := ["Line"],
-          extBases := ["schemdraw.elements.lines.Line"],
-          decorators := [],
-          params := [("name", true, none)],
-          fields := [("_name", (.param "name"))],
-          sinShift := none, revForward := "",
-          props := [("name", (.field "_name")), ("type", (.str "labeled_line"))] },
-   { cls := "Node", typ := "node", named := true,
-          ancestors := [],
-          extBases := ["schemdraw.elements.Element"],
-          decorators := ["simple_circuit_element"],
-          params := [("name", true, (some (.str "")))],
-          fields := [("node_id", (.param "name"))],
-          sinShift := none, revForward := "",
-          props := [("type", (.str "node"))] },
-   { cls := "LabelNode", typ := "label_node", named := true,
-          ancestors := ["Node"],
-          extBases := ["schemdraw.elements.Element"],
-          decorators := [],
-          params := [("id_loc", false, (some (.str ""))), ("name", true, (some (.str ""))), ("show", true, (some (.bool true)))],
-          fields := [("id_loc", (.other "{}"))],
-          sinShift := none, revForward := "",
-          props := [("is_reverse", (.bool false)), ("type", (.str "label_node"))] },
-   { cls := "Switch", typ := "switch", named := true,
-          ancestors := [],
-          extBases := ["schemdraw.elements.elements.Element2Term"],
-          decorators := ["simple_circuit_element"],
-          params := [("name", false, none), ("state", true, (some (.str "OPEN")))],
-          fields := [("state", (.param "state")), ("_name", (.param "name"))],
-          sinShift := none, revForward := "",
-          props := [("name", (.field "_name")), ("type", (.str "switch"))] },
-   { cls := "Ground", typ := "ground", named := true,
-          ancestors := ["Node"],
-          extBases := ["schemdraw.elements.Element"],
-          decorators := [],
-          params := [("name", true, (some (.str "0")))],
-          fields := [],
-          sinShift := none, revForward := "",
-          props := [("type", (.str "ground"))] },
-   { cls := "VoltageLabel", typ := "", named := false,
-          ancestors := [],
-          extBases := ["schemdraw.elements.CurrentLabel"],
-          decorators := [],
-          params := [("at", false, none), ("vlabel", false, (some (.str ""))), ("label_loc", false, (some (.str "bottom"))), ("reverse", false, (some (.bool false))), ("color", false, (some (.str "blue")))],
-          fields := [("params", (.other "ChainMap({'headwidth': 0.3, 'headlength': 0.4, 'color': colo"))],
-          sinShift := none, revForward := "reverse",
-          props := [] },
-   { cls := "CurrentLabel", typ := "", named := false,
-          ancestors := [],
-          extBases := ["schemdraw.elements.CurrentLabelInline"],
-          decorators := [],
-          params := [("at", false, none), ("ilabel", false, (some (.str "")))],
-          fields := [],
-          sinShift := none, revForward := "",
-          props := [] },
-   { cls := "PowerLabel", typ := "", named := false,
-          ancestors := [],
-          extBases := ["schemdraw.elements.Label"],
-          decorators := [],
-          params := [("at", false, none), ("plabel", false, (some (.str "")))],
-          fields := [],
-          sinShift := none, revForward := "",
-          props := [] }]
-
-def loaderTypes : List LoaderType :=
-  [{ typ := "voltage_source", cls := "VoltageSource", combine := none },
-   { typ := "current_source", cls := "CurrentSource", combine := none },
-   { typ := "ac_voltage_source", cls := "ACVoltageSource", combine := none },
-   { typ := "ac_current_source", cls := "ACCurrentSource", combine := none },
-   { typ := "rect_voltage_source", cls := "RectVoltageSource", combine := none },
-   { typ := "rect_current_source", cls := "RectCurrentSource", combine := none },
-   { typ := "complex_voltage_source", cls := "ComplexVoltageSource", combine := (some ("V_real", "V_imag", "V")) },
-   { typ := "complex_current_source", cls := "ComplexCurrentSource", combine := (some ("I_real", "I_imag", "I")) },
-   { typ := "resistor", cls := "Resistor", combine := none },
-   { typ := "conductance", cls := "Conductance", combine := none },
-   { typ := "impedance", cls := "Impedance", combine := (some ("R", "X", "Z")) },
-   { typ := "admittance", cls := "Admittance", combine := (some ("G", "B", "Y")) },
-   { typ := "capacitor", cls := "Capacitor", combine := none },
-   { typ := "inductance", cls := "Inductance", combine := none },
-   { typ := "ground", cls := "Ground", combine := none },
-   { typ := "line", cls := "Line", combine := none }]
-
-def undictifySteps : List String :=
-  ["userparams", "name", "reverse", "circuit", "construct", "restore:segments", "restore:params", "restore:anchors", "restore:absanchors", "restore:transform", "restore:absdrop", "return"]
-
-def dictifySaved : List String :=
-  ["_userparams", "segments", "params", "anchors", "absanchors", "transform", "absdrop"]
-
-def declHandlers : List DeclHandler :=
-  [{ typ := "resistor", cls := "Resistor", clsIfName := none },
-   { typ := "conductance", cls := "Conductance", clsIfName := none },
-   { typ := "impedance", cls := "Impedance", clsIfName := none },
-   { typ := "admittance", cls := "Admittance", clsIfName := none },
-   { typ := "capacitor", cls := "Capacitor", clsIfName := none },
-   { typ := "inductance", cls := "Inductance", clsIfName := none },
-   { typ := "line", cls := "Line", clsIfName := some "LabeledLine" },
-   { typ := "node", cls := "Node", clsIfName := none },
-   { typ := "lamp", cls := "Lamp", clsIfName := none },
-   { typ := "ground", cls := "Ground", clsIfName := none },
-   { typ := "voltage_source", cls := "VoltageSource", clsIfName := none },
-   { typ := "ac_voltage_source", cls := "ACVoltageSource", clsIfName := none },
-   { typ := "complex_voltage_source", cls := "ComplexVoltageSource", clsIfName := none },
-   { typ := "current_source", cls := "CurrentSource", clsIfName := none },
-   { typ := "ac_current_source", cls := "ACCurrentSource", clsIfName := none },
-   { typ := "complex_current_source", cls := "ComplexCurrentSource", clsIfName := none }]
-
-def declDirections : List (String × String) :=
-  [("right", "right"), ("left", "left"), ("up", "up"), ("down", "down")]
-
-/-- keyword defaults injected by `element_factory` -/
-def declFactoryDefaults : List (String × Val) := [("name", .str ""), ("reverse", .bool false)]
-
-/-- `apply_position`: the element is placed at the `end` anchor of the element named by `place_after` -/
-def declPlaceAfterAnchor : String := "end"
-
-end CC.Draw.Gen
+-- translator refused: SimpleCircuit/Elements.py:277: augmented assignment outside the grammar: self._phi -= 90 if deg else np.pi / 2
+#eval (panic! "translator refused" : Unit)
+example : False := by decide
